@@ -3,6 +3,7 @@ use crate::props::seqexact::SeqExact;
 use crate::bits::BitsKind;
 use crate::props::bitsprops::BitsProp;
 use crate::trees::TreeKind;
+pub use crate::props::quadprops::{C05, C13};
 
 pub const C01: SeqExact = SeqExact { id: "C01", kinds: &TreeKind::QUAD_PLAIN };
 pub const C02: SeqExact = SeqExact { id: "C02", kinds: &TreeKind::QUAD_HUFF };
@@ -20,6 +21,8 @@ macro_rules! with_prop {
             "C03" => { let $p = &$crate::registry::C03; $body }
             "C06" => { let $p = &$crate::registry::C06; $body }
             "C07" => { let $p = &$crate::registry::C07; $body }
+            "C05" => { let $p = &$crate::registry::C05; $body }
+            "C13" => { let $p = &$crate::registry::C13; $body }
             other => {
                 eprintln!("unknown property {other}");
                 std::process::exit(2);
